@@ -25,14 +25,15 @@ const modPath = "github.com/xinchentechnote/fin-proto-go"
 var modules = []string{"sse-bin", "szse-bin", "bjse-trade-bin", "risk-bin", "sample-bin"}
 
 type World struct {
-	e     *Engine
-	prog  *ssa.Program
-	pkgs  map[string]*ssa.Package // "codec", "sse-bin", ...
-	base  *State
-	fns   map[string]*ssa.Function
-	repo  string
-	loadS float64
-	nInit int
+	e       *Engine
+	prog    *ssa.Program
+	pkgs    map[string]*ssa.Package // "codec", "sse-bin", ...
+	base    *State
+	sharedW map[int]string // C19: package-level objects written by registry operations (memo)
+	fns     map[string]*ssa.Function
+	repo    string
+	loadS   float64
+	nInit   int
 }
 
 func repoDir() string {
